@@ -12,6 +12,8 @@ use tower::Service;
 use tower_lsp::jsonrpc::{Request, Response};
 use tower_lsp::{ClientSocket, LspService};
 
+const BURST: usize = usize::MAX;
+
 type Fut = Pin<Box<dyn Future<Output = Result<Option<Response>, tower_lsp::ExitedError>> + Send>>;
 
 #[derive(Clone, Debug)]
@@ -63,7 +65,7 @@ fn short(uri: &str) -> String {
 }
 
 /// Execute one (history, schedule seed) scenario. Returns (events, publishes, finals, actions).
-fn scenario(history: &[Note], rng: &mut Rng, dir: &str, serial: bool) -> (Vec<String>, Vec<String>, Vec<String>, String) {
+fn scenario(history: &[Note], rng: &mut Rng, dir: &str, serial: bool, starve: Option<usize>) -> (Vec<String>, Vec<String>, Vec<String>, String) {
     let _ = incan::lsp::verif_hooks::take();
     let run = Run {
         dir: dir.to_string(),
@@ -120,7 +122,19 @@ fn scenario(history: &[Note], rng: &mut Rng, dir: &str, serial: bool) -> (Vec<St
             }
         }
     };
+    // burst mode: another document is opened first and its diagnostics stay unread in the (bounded) client channel
+    let mut prefill: Option<Fut> = None;
+    if starve == Some(BURST) {
+        let req = Request::build("textDocument/didOpen")
+            .params(json!({"textDocument": {"uri": format!("file://{dir}/other.incn"), "languageId": "incan", "version": 1, "text": "def other_fn() -> int:\n    return 0\n"}}))
+            .finish();
+        let mut f = call(&mut service, req);
+        if !poll_once(&mut f).is_ready() {
+            prefill = Some(f);
+        }
+    }
     let mut steps = 0;
+    let mut idle_rounds = 0;
     loop {
         let in_flight = futs.iter().filter(|f| f.is_some()).count();
         let all_started = started == history.len();
@@ -131,7 +145,7 @@ fn scenario(history: &[Note], rng: &mut Rng, dir: &str, serial: bool) -> (Vec<St
         let flush = steps > 300;
         // enabled actions: 0 = start next, 1 = poll some in-flight future, 2 = drain one message
         let mut choices: Vec<u8> = Vec::new();
-        if !all_started && in_flight < 4 && (!serial || in_flight == 0) {
+        if !all_started && (in_flight < 4 || starve == Some(BURST)) && (!serial || in_flight == 0) {
             choices.push(0);
         }
         if in_flight > 0 {
@@ -141,7 +155,33 @@ fn scenario(history: &[Note], rng: &mut Rng, dir: &str, serial: bool) -> (Vec<St
         if serial && in_flight > 0 {
             choices = vec![1, 2];
         }
-        let c = if flush { [1u8, 2][steps % 2] } else { *rng.pick(&choices) };
+        let mut c = if flush { [1u8, 2][steps % 2] } else { *rng.pick(&choices) };
+        // starve mode: handler `k` is never polled again after its first poll until every other notification has been
+        // started and has finished (or is stuck behind it): the schedule in which one analysis is slow
+        let mut forced: Option<usize> = None;
+        if let (Some(BURST), false) = (starve, flush) {
+            // burst: every notification gets its first poll in arrival order while the client reads nothing; then the
+            // client catches up and the handlers are polled round robin in arrival order
+            if !all_started {
+                c = 0;
+            } else {
+                let live: Vec<usize> = (0..futs.len()).filter(|i| futs[*i].is_some()).collect();
+                if steps % 2 == 0 || live.is_empty() { c = 2; } else { c = 1; forced = Some(live[(steps / 2) % live.len()]); }
+            }
+        } else if let (Some(k), false) = (starve, flush) {
+            let others: Vec<usize> = (0..futs.len()).filter(|i| futs[*i].is_some() && *i != k).collect();
+            if !others.is_empty() && idle_rounds < 40 {
+                idle_rounds += 1;
+                if steps % 2 == 0 { c = 2; } else { c = 1; forced = Some(others[(steps / 2) % others.len()]); }
+            } else if !all_started {
+                c = 0;
+                idle_rounds = 0;
+            } else {
+                // everything has been started and the others are done or wait for `k`: now everybody runs (round robin)
+                let live: Vec<usize> = (0..futs.len()).filter(|i| futs[*i].is_some()).collect();
+                if steps % 2 == 0 || live.is_empty() { c = 2; } else { c = 1; forced = Some(live[(steps / 2) % live.len()]); }
+            }
+        }
         match c {
             0 => {
                 let req = mk(&history[started]);
@@ -159,7 +199,7 @@ fn scenario(history: &[Note], rng: &mut Rng, dir: &str, serial: bool) -> (Vec<St
                 if live.is_empty() {
                     continue;
                 }
-                let i = if flush { live[steps % live.len()] } else { *rng.pick(&live) };
+                let i = match forced { Some(f) if live.contains(&f) => f, _ => if flush { live[steps % live.len()] } else { *rng.pick(&live) } };
                 actions.push_str(&format!("P{i} "));
                 if let Some(f) = futs[i].as_mut() {
                     if poll_once(f).is_ready() {
@@ -181,6 +221,12 @@ fn scenario(history: &[Note], rng: &mut Rng, dir: &str, serial: bool) -> (Vec<St
     }
     while let Some(req) = drain_one(&mut socket) {
         record(req, &mut pubs);
+    }
+    if let Some(mut f) = prefill {
+        for _ in 0..200 {
+            if poll_once(&mut f).is_ready() { break; }
+            while drain_one(&mut socket).is_some() {}
+        }
     }
     // final hover per document
     let mut finals = Vec::new();
@@ -229,6 +275,8 @@ fn scenario(history: &[Note], rng: &mut Rng, dir: &str, serial: bool) -> (Vec<St
             }
             parts.join(":")
         })
+        // the pre-fill document of the burst schedules is not part of the history
+        .filter(|e: &String| !e.split(':').any(|p| p == "other"))
         .collect();
     (events, pubs, finals, actions)
 }
@@ -340,6 +388,11 @@ pub fn run(out: &mut Out, tier: &str, seed: u64, scratch: &str) {
         // a text that does not lex as the newest version: it is what the editor shows, the old answers must go
         vec![Note::Open { doc: 0, version: 1, kind: 'v' }, Note::Change { doc: 0, version: 2, kind: 'l' }],
         vec![Note::Open { doc: 0, version: 1, kind: 'i' }, Note::Change { doc: 0, version: 2, kind: 'l' }, Note::Change { doc: 0, version: 3, kind: 'v' }],
+        // close and re-open with a text that stores at once (no AST: nothing to wait for) while the first open is
+        // still in flight
+        vec![Note::Open { doc: 0, version: 1, kind: 'i' }, Note::Close { doc: 0 }, Note::Open { doc: 0, version: 2, kind: 'b' }],
+        vec![Note::Open { doc: 0, version: 1, kind: 'i' }, Note::Close { doc: 0 }, Note::Open { doc: 0, version: 2, kind: 'l' }],
+        vec![Note::Open { doc: 0, version: 1, kind: 'i' }, Note::Change { doc: 0, version: 2, kind: 'i' }, Note::Close { doc: 0 }, Note::Open { doc: 0, version: 3, kind: 'b' }],
         // a save while a newer version is still being analysed, and a save before a change: neither may bring old text back
         vec![Note::Open { doc: 0, version: 1, kind: 'v' }, Note::Change { doc: 0, version: 2, kind: 'i' }, Note::Save { doc: 0 }],
         vec![Note::Open { doc: 0, version: 1, kind: 'i' }, Note::Save { doc: 0 }, Note::Change { doc: 0, version: 2, kind: 'v' }, Note::Save { doc: 0 }],
@@ -353,7 +406,9 @@ pub fn run(out: &mut Out, tier: &str, seed: u64, scratch: &str) {
     for h in &histories {
         for k in 0..per {
             let serial = k == 0;
-            let (events, pubs, finals, actions) = scenario(h, &mut rng, &dir, serial);
+            // the first schedules of every history starve one handler each (the first three notifications in turn)
+            let starve = if k >= 1 && k <= 3 && k - 1 < h.len() { Some(k - 1) } else if k == 4 { Some(BURST) } else { None };
+            let (events, pubs, finals, actions) = scenario(h, &mut rng, &dir, serial, starve);
             total += 1;
             out.case(
                 &format!("c18 run {} {} {}", enc_history(h), if events.is_empty() { "-".to_string() } else { events.join(",") }, enc_saves(h)),
